@@ -429,7 +429,7 @@ func pointsLabel(n int) string {
 
 func init() {
 	defProp("C10",
-		"rapid-generated open polylines of 1, 2, 3-8 points (duplicates, collinear continuations; extent 40 .. 5e6) x end types {Butt, Square, Round, Joined} x 4 join types x delta log-uniform in [0.5, extent] x arc tolerances; oracle from float distances to the polyline at ring probes along segment normals, behind segment ends and around vertices: points within delta-tol of a segment along its normal (foot at least tol inside the segment) inside; round joins / round and square caps: discs / half discs of radius delta-tol inside; points farther than k*delta+tol outside; Butt: points more than tol behind an open end outside; single points: square / circle of radius delta; result canonical (winding 0/1); non-trivial = >= 4 points or Joined, and both kinds of probes judged",
+		"rapid-generated open polylines of 1, 2, 3-8 points (duplicates, collinear continuations; extent 40 .. 5e6, 2^32, 2^38) x end types {Butt, Square, Round, Joined} x 4 join types x delta log-uniform in [0.5, min(extent, 5e6)] x arc tolerances; oracle from float distances to the polyline at ring probes along segment normals, behind segment ends and around vertices: points within delta-tol of a segment along its normal (foot at least tol inside the segment) inside; round joins / round and square caps: discs / half discs of radius delta-tol inside; points farther than k*delta+tol outside; Butt: points more than tol behind an open end outside; single points: square / circle of radius delta; result canonical (winding 0/1); non-trivial = >= 4 points or Joined, and both kinds of probes judged",
 		[]string{"tol = 2 + effective arc tolerance + 0.01; k as in C05, at least sqrt 2 with square caps",
 			"while F19 is listed, must-be-inside probes within k*delta+tol of the first or last segment of an open (non-Joined) path are excluded and counted"},
 		drawC10, judgeC10)
